@@ -1,12 +1,16 @@
 //! blsful verification harness: replays TLC-generated vectors on the real library (spec -> impl)
 //! and records traces of the real library for TLC to validate (impl -> spec).
 mod codec;
+#[macro_use]
 mod codecs;
 mod conc;
+mod corpus;
 mod elgamal;
+#[cfg(feature = "hooks")]
 mod pok;
 mod record;
 mod refeval;
+#[cfg(feature = "hooks")]
 mod rngdrv;
 mod signcrypt;
 mod signet;
@@ -39,7 +43,9 @@ fn run_vector(v: &Value, group: &str, conc: &Conc, tables: &Tables) -> signet::O
         ("TimeLock", "G2") => timelock::run::<Bls12381G2Impl, RefG2>(v, conc, tables),
         ("ElGamal", "G1") => elgamal::run::<Bls12381G1Impl, RefG1>(v, conc, tables),
         ("ElGamal", "G2") => elgamal::run::<Bls12381G2Impl, RefG2>(v, conc, tables),
+        #[cfg(feature = "hooks")]
         ("Pok", "G1") => pok::run::<Bls12381G1Impl, RefG1>(v, conc, tables),
+        #[cfg(feature = "hooks")]
         ("Pok", "G2") => pok::run::<Bls12381G2Impl, RefG2>(v, conc, tables),
         ("Codec", "G1") => codecs::run::<Bls12381G1Impl, RefG1>(v, conc, tables, "G1"),
         ("Codec", "G2") => codecs::run::<Bls12381G2Impl, RefG2>(v, conc, tables, "G2"),
@@ -167,6 +173,32 @@ fn replay(args: &[String]) -> i32 {
     }
 }
 
+#[cfg(not(feature = "hooks"))]
+fn rng_cmd(_args: &[String]) -> i32 {
+    eprintln!("built without hooks");
+    2
+}
+
+fn corpus_cmd(args: &[String], check: bool) -> i32 {
+    let tables = Tables::load(arg(args, "--tables").expect("--tables"));
+    let out_path = arg(args, "--out").expect("--out");
+    let evs: Vec<Value> = if check {
+        corpus::check(arg(args, "--in").expect("--in"), &tables)
+    } else {
+        let mut v = vec![];
+        corpus::generate::<Bls12381G1Impl>("G1", &tables, &mut v);
+        corpus::generate::<Bls12381G2Impl>("G2", &tables, &mut v);
+        v
+    };
+    let mut out = std::fs::File::create(out_path).expect("create out");
+    for e in evs.iter() {
+        writeln!(out, "{}", serde_json::to_string(e).unwrap()).unwrap();
+    }
+    println!("corpus: {} lines", evs.len());
+    0
+}
+
+#[cfg(feature = "hooks")]
 fn rng_cmd(args: &[String]) -> i32 {
     let out_path = arg(args, "--out").expect("--out");
     let n: usize = arg(args, "--events").unwrap_or("64").parse().unwrap();
@@ -221,6 +253,8 @@ fn main() {
     let code = match args.get(1).map(|s| s.as_str()) {
         Some("replay") => replay(&args[2..]),
         Some("record") => record_cmd(&args[2..]),
+        Some("corpus") => corpus_cmd(&args[2..], false),
+        Some("corpus-check") => corpus_cmd(&args[2..], true),
         Some("witness-search") => {
             match witness::search(&args[2], &args[3]) {
                 Some(w) => { println!("{}", w); 0 }
